@@ -76,7 +76,7 @@ THEOREMS = ['C15_hooks_table', 'C15_reachable_wf', 'C15_same', 'C15_same_run', '
             'C15_rekey_contexts', 'C15_pickles_always', 'C15_rekey_graphs', 'C15_locks_free', 'C15_fresh_identities', 'C15_frame',
             'C15_independent_run', 'C15_independent', 'C15_hold_independent', 'C15_envelope_inhabited',
             'C15_locked_graph_rekeyed', 'C15_unhashable_pickles', 'C15_same_refuted_async_queue',
-            'C15_via_model_nongraph', 'C15_via_model_graph', 'C15_via_model_refuted_graph']
+            'C15_via_model_nongraph', 'C15_via_model_graph', 'C15_via_model_refuted_graph', 'C15_ident_owner_kept']
 
 
 # ====================================================================== picklable user classes
@@ -203,9 +203,13 @@ def gen(rng, i, tier):
     nested = 'Hierarchical' in cname
     locked = 'Locked' in cname
     is_async = 'Async' in cname
+    hsm.CUR['sep'] = hsm.SEP             # names in the case are written with '_' and translated when it is run
+    sep = None
     if nested and rng.random() < 0.85:
         shape = 'hsm'
         g = hsm.gen_case(rng, single_scope=True)
+        if rng.random() < 0.2:
+            sep = rng.choice(['.', '/'])  # NestedState.separator of a subclass: models get FunctionWrapper helpers
         nev = 1 + max([e for e, _ in g['machine']['events']] +
                       [e for _, d in hsm.all_defs(g['machine']) for e, _ in d['events']] + [0])
     else:
@@ -348,7 +352,8 @@ def gen(rng, i, tier):
     return dict(cls=cname, shape=shape, machine=machine, env=env, init=g['init'], raises=raises, qmode=qmode,
                 selfmodel=selfmodel, userctx=userctx, models=models, prefix=prefix,
                 hold=bool(locked and not userctx and rng.random() < 0.25), cont=cont, diva=diva, divb=divb,
-                entry=entry, wrap=wrap, how=how)
+                entry=entry, wrap=wrap, how=how,
+                inside=bool(locked and how == 'pickle' and rng.random() < 0.15), sep=sep)
 
 
 # ====================================================================== encoding for the model
@@ -374,7 +379,10 @@ def enc(case):
     wlocks = []
     if locked:
         wlocks.append([0, 0, bool(case['hold']) and not case['userctx'], not case['userctx']])
-        wlocks.append([1, 1, False, False])
+        # IdentManager: names its owning thread while the machine's contexts are entered (case['inside']: the
+        # snapshot is taken from inside, like pickle.dumps(machine) in a callback); whether pickling resets it is
+        # read off /repo (IdentManager.__getstate__ defined or not)
+        wlocks.append([1, 1, bool(case.get('inside')), _ident_resets()])
         for m in case['models']:
             if m['ctx']:
                 wlocks.append([2 + m['tag'], 2 + m['tag'], False, False])
@@ -393,6 +401,12 @@ def enc(case):
 
 
 # ====================================================================== implementation side
+def _ident_resets():
+    _import_transitions()
+    from transitions.extensions.locking import IdentManager
+    return '__getstate__' in vars(IdentManager) or '__reduce__' in vars(IdentManager)
+
+
 def _hooks_code(cls):
     for k in cls.__mro__:
         if k is object:
@@ -450,11 +464,15 @@ class Side(object):
             if mod is None:
                 return [2, 'no-model']
             return self.call(lambda: mod.trigger('ez%d' % op[2]))
+        sep = case.get('sep')
+
+        def nm(x):
+            return x.replace('_', sep) if (sep and isinstance(x, str)) else x
         if k == 'rmt':
-            return self.call(lambda: self.m.remove_transition(op[1], source=op[2] or '*', dest=op[3] or '*'))
+            return self.call(lambda: self.m.remove_transition(op[1], source=nm(op[2]) or '*', dest=nm(op[3]) or '*'))
         if k == 'addt':
             cond = None if op[4] is None else ['cb_%d' % op[4]]
-            return self.call(lambda: self.m.add_transition(op[1], op[2], op[3], conditions=cond))
+            return self.call(lambda: self.m.add_transition(op[1], nm(op[2]), nm(op[3]), conditions=cond))
         return [2, 'unknown-op']
 
     def models(self):
@@ -597,7 +615,15 @@ def _build(case):
     like = dict(machine=case['machine'], init=case['init'])
     model_arg = cls.self_literal if case['selfmodel'] else []
     if case['shape'] == 'hsm':
+        if case.get('sep'):
+            like['sep'] = case['sep']
         machine, _ = hsm.build_hsm(like, world, cls, extra_kwargs=kw, model=model_arg)
+        if case.get('sep'):
+            # hsm.with_sep creates the machine / state classes dynamically in module hsm: make them importable by
+            # name there, as a user's module-level subclasses would be (pickle stores classes by reference)
+            k = type(machine)
+            setattr(hsm, k.__name__, k)
+            setattr(hsm, k.state_cls.__name__, k.state_cls)
     else:
         machine, _ = flat.build_machine(like, world, cls=cls, model=model_arg, extra_kwargs=kw)
     if case['selfmodel']:
@@ -699,7 +725,12 @@ def _impl_c15(case):
             return copy.deepcopy(obj)
         return pickle.loads(pickle.dumps(obj))
     try:
-        if case['hold'] and locked:
+        if case.get('inside') and locked:
+            # as from inside a callback: every machine context (lock / user context, IdentManager) is entered
+            from transitions.extensions.locking import nested as _nested
+            with _nested(*machine.machine_context):
+                loaded = pickle.loads(pickle.dumps(target))
+        elif case['hold'] and locked:
             with machine.machine_context[0]:
                 data = pickle.dumps(target)
                 loaded = copy.deepcopy(target) if case.get('how') == 'deepcopy' else None
@@ -839,7 +870,9 @@ def kf_classes(case):
     """known-finding classes of a case (decidable from the case alone):
     KF-C15-3  an async class with queued='model': the per-model queue table is not re-keyed;
     KF-C15-4  a graph class pickled THROUGH one of its models (not the machine itself): the graph of that model's
-              copy styles no state as active until its next transition.
+              copy styles no state as active until its next transition;
+    KF-C15-5  a locked class pickled from INSIDE its contexts (a callback): IdentManager.current travels with the
+              copy, which then treats the pickling thread as owner of its lock and enters no context for it.
     The former KF-C15-1 / KF-C15-2 are fixed in /repo (74ef53e, 3c0ca68) and are ordinary cases."""
     graph, nested, locked, is_async = _flags(case)
     out = []
@@ -847,6 +880,8 @@ def kf_classes(case):
         out.append('KF-C15-3')
     if graph and case.get('entry') is not None and not (case['selfmodel'] and case['entry'] == 0):
         out.append('KF-C15-4')
+    if locked and case.get('inside'):
+        out.append('KF-C15-5')
     return out
 
 
@@ -866,11 +901,14 @@ def canon(case, obs):
         obs = copy.deepcopy(obs)
         obs[2][2] = []
         return obs[:3]
-    if 'KF-C15-4' in ks:
+    if 'KF-C15-4' in ks or 'KF-C15-5' in ks:
         obs = copy.deepcopy(obs)
         beh = obs[2][2]
         for row in beh[0]:
-            row[4] = True
+            if 'KF-C15-4' in ks:
+                row[4] = True            # markup/diagram
+            if 'KF-C15-5' in ks:
+                row[5] = True            # contexts entered (the copy enters none in the pickling thread)
         if all(all(r) for r in beh[0]) and all(beh[1]):
             return obs[:3]
     return obs
@@ -901,10 +939,13 @@ def failing_clauses(case, obs):
         for t in live:
             names = [0, 1] + ([2 + t] if case['models'][t]['ctx'] else [])
             want_ctx.append([[nm, False, (k if k < 2 else 99)] for k, nm in enumerate(names)])
-        if rekey[6] != want_ctx:
+        got_ctx = [[[nm, (False if nm == 1 else h), ix] for nm, h, ix in ctxs] for ctxs in rekey[6]]
+        if got_ctx != want_ctx:
             out.append('contexts found for each model of the copy (names, unlocked, shared with machine_context)')
-        if [int(bool(h)) for _, h in rekey[11]] != [0, 0]:
+        if [int(bool(h)) for nm, h in rekey[11] if nm != 1] != [0]:
             out.append('machine_context of the copy is unlocked')
+        if any(h for nm, h in rekey[11] if nm == 1) or any(h for ctxs in rekey[6] for nm, h, ix in ctxs if nm == 1):
+            out.append('IdentManager of the copy names no owning thread')
     if graph:
         if rekey[7] != want_keys:
             out.append('model_graphs of the copy keyed by the identities of its models')
@@ -942,6 +983,7 @@ def failing_clauses(case, obs):
 KF_ALLOWED = {
     'KF-C15-3': {'queue table of the copy keyed by the identities of its models'},
     'KF-C15-4': {'graph of the model through which unpickling entered equals a regenerated graph'},
+    'KF-C15-5': {'IdentManager of the copy names no owning thread'},
 }
 
 
@@ -1023,6 +1065,10 @@ def stats(case, obs, dist):
         inc('snapshot_after_filtered_remove_transition')
     if case.get('how') == 'deepcopy':
         inc('copy_by_deepcopy')
+    if case.get('inside'):
+        inc('snapshot_from_inside_the_contexts')
+    if case.get('sep'):
+        inc('custom_state_separator')
     if isinstance(obs, list) and len(obs) >= 3 and obs[2][:1] == [0]:
         inc('pickling_raised')
 
